@@ -136,9 +136,13 @@ def _run_monitor(case):
     fails = []
     if rng.random() < 0.6:
         kind = "I" if rng.random() < 0.7 else "P"
-        spec = gen.random_itier(rng, tmax=40, maxn=5) if kind == "I" else gen.random_ptier(rng, tmax=40, maxn=5)
+        forms = rng.random() < 0.3
+        lp = 0.3 if forms else 0.05
+        spec = gen.random_itier(rng, tmax=40, maxn=5, long_p=lp) if kind == "I" else gen.random_ptier(rng, tmax=40, maxn=5, long_p=lp)
         tier = core.mk_tier(spec, sc)
         cur = core.snap_tier(tier, sc)
+        if forms:
+            return _copy_forms(rng, tier, kind)
         o = c05._gen_op(rng, kind, cur, 40)
         while o["op"] in ("insert", "delete", "construct"):
             o = c05._gen_op(rng, kind, cur, 40)
@@ -153,14 +157,20 @@ def _run_monitor(case):
                 name = o["op"]
                 if name in ("union", "difference", "intersection", "mergeLabels", "append"):
                     meth = {"append": "appendTier"}.get(name, name)
-                    getattr(tier, meth)(args["other"])
+                    res = getattr(tier, meth)(args["other"])
                 elif name == "dejitter":
-                    tier.dejitter(args["ref"], sc.f(o["d"]))
+                    res = tier.dejitter(args["ref"], sc.f(o["d"]))
                 elif name == "morph":
                     keep = None if o["filter"] is None else set(o["filter"])
-                    tier.morph(args["target"], None if keep is None else (lambda lab: lab in keep))
+                    res = tier.morph(args["target"], None if keep is None else (lambda lab: lab in keep))
                 else:
-                    tierops.apply_op(tier, name, o, sc, kind)
+                    res = tierops.apply_op(tier, name, o, sc, kind)
+                # what came back is a tier of its own: editing it is not editing the receiver or an argument
+                if res is not None and res is not tier and hasattr(res, "deleteEntry"):
+                    if len(res.entries):
+                        res.deleteEntry(res.entries[0])
+                    far = float(res.maxTimestamp) + 1.0
+                    res.insertEntry((far, far + 1.0, "zz") if kind == "I" else (far, "zz"), "replace", "silence")
                 # queries
                 tier.find("a")
                 tier.find("a", substrMatchFlag=True)
@@ -218,6 +228,54 @@ def _run_monitor(case):
     if _raw_tg(tg2) != before2:
         fails.append("argument textgrid changed by %s" % which)
     return fails, "tg." + which
+
+
+def _copy_forms(rng, tier, kind):
+    """the ways of getting a copy of a tier: new() alone, with another name, with an entry list, the constructor on an
+    entry list.  The list handed over stays as it was, and copy and source can be edited independently afterwards."""
+    fails = []
+    form = rng.choice(["new", "new_name", "new_name_pos", "new_entries", "ctor"])
+    lst = list(tier.entries)
+    if rng.random() < 0.5:
+        rng.shuffle(lst)
+    lst_before = list(lst)
+    before = core.raw_tier(tier)
+    try:
+        with core.captured_stdout():
+            if form == "new":
+                res = tier.new()
+            elif form == "new_name":
+                res = tier.new(name="x")
+            elif form == "new_name_pos":
+                res = tier.new("x")
+            elif form == "new_entries":
+                res = tier.new(entries=lst)
+            else:
+                res = type(tier)(tier.name, lst, tier.minTimestamp, tier.maxTimestamp)
+    except Exception as e:  # noqa
+        return ["%s raised %s" % (form, type(e).__name__)], "copy/" + form
+    if lst != lst_before or any(x is not y for x, y in zip(lst, lst_before)):
+        fails.append("the entry list handed to %s was reordered or changed" % form)
+    if core.raw_tier(tier) != before:
+        fails.append("receiver changed by %s" % form)
+    with core.captured_stdout():
+        if len(res.entries):
+            res.deleteEntry(res.entries[-1])
+        far = float(res.maxTimestamp) + 1.0
+        res.insertEntry((far, far + 1.0, "zz") if kind == "I" else (far, "zz"), "replace", "silence")
+    if core.raw_tier(tier) != before:
+        fails.append("editing the tier returned by %s changed the source tier" % form)
+    if lst != lst_before:
+        fails.append("editing the tier returned by %s changed the entry list it was built from" % form)
+    after = core.raw_tier(res)
+    with core.captured_stdout():
+        if len(tier.entries):
+            tier.deleteEntry(tier.entries[0])
+        far = float(tier.maxTimestamp) + 3.0
+        tier.insertEntry((far, far + 1.0, "yy") if kind == "I" else (far, "yy"), "replace", "silence")
+    if core.raw_tier(res) != after:
+        fails.append("editing the source tier changed the tier %s had returned" % form)
+    return fails, "copy/" + form
 
 
 def _run_failsave(case):
